@@ -20,6 +20,46 @@ CHECKS = {
         note='the forall over signatures x call shapes, correctness of the tables themselves, value-level behaviour inside a row, '
              'cross-element interactions beyond kind/order invariants.',
         design='DESIGN.md section 3 (C01), appendix B1-B7'),
+    'C02': dict(
+        technique=TECH + 'path-sensitive abstract-effect analysis of _embed (bucket contents per path) against oracle table B8; argument-flow rules for the flags',
+        text='Decides the structural clauses C02.R1-R6 (bucket contents/kinds per path, mandatory default clearing, duplicate-name '
+             'rejection before keyword-only merging, star-flag coherence and name-preserving forwarding, fold coverage with 1-based '
+             'depth, outer-before-inner order): necessary conditions, not exactness over calls.',
+        note='exactness over calls, embed(a,b,c) == embed(embed(a,b),c) as a value law, identity on bare (*args, **kwargs).',
+        design='DESIGN.md section 3 (C02), appendix B8'),
+    'C03': dict(
+        technique=TECH + 'path-sensitive abstract-effect analysis of _mask: per-name decision table, induction-variable rule, derived-collection (def-use) rule, hide-flag coherence',
+        text='Decides the structural clauses C03.R1-R5 (per-name table, name-index coherence = order independence, positional '
+             'consumption order/trip count/exhaustion, kinds of converted parameters, hide flags only remove and are bound '
+             'name-preservingly): necessary conditions, not the iff over calls.',
+        note='exactness over calls, mask(mask(s,n),m) == mask(s,n+m) as a value law.',
+        design='DESIGN.md section 3 (C03), appendix B9'),
+    'C08': dict(
+        technique=TECH + 'effect pairing (Put<->SrcAdd, Clear<->SrcDel) on enumerated paths, origin tags for provenance maps, helper contracts',
+        text='Decides the structural clauses C08.R1-R7 (registration of every stored parameter from every side it stands for, removal '
+             'pairing in _mask, union hygiene in _embed, +depths always assigned, depth arithmetic, duplicate-free concatenation, '
+             'wrapper swap). C08.R6 is a recorded known finding (D12), pinned by the test suite.',
+        note='that each listed callable declares the parameter as a runtime fact; depth strictness along discovered chains.',
+        design='DESIGN.md section 3 (C08)'),
+    'C09': dict(
+        technique=TECH + 'extracted decision table of _Merger compared with the exact column of the oracle tables; protocol-position agreement (sort_params/apply_params)',
+        text='Decides the structural clauses C09.R1-R4 (exactness column incl. raise discipline, classification round trip and '
+             'six-position protocol agreement, left operand wins, bucket/kind closure of the fold): necessary conditions of the '
+             'precision/identity/fold laws, not the laws as equalities of values.',
+        note='the iff over calls, idempotence/neutral-element laws as value equalities, provenance equality in the fold law beyond closure.',
+        design='DESIGN.md section 3 (C09), appendix B1-B7'),
+    'C10': dict(
+        technique=TECH + 'decision-table conformance of _concile_meta, dominance of default clearing, kind-restriction scan over all replace(kind=) terms',
+        text='Decides the structural clauses C10.R1-R5 (default/annotation table, defaults cleared exactly when required, kind '
+             'changes are restrictions, outer-before-inner order, partial defaults are the bound value of the own name).',
+        note='displayed default/annotation values.',
+        design='DESIGN.md section 3 (C10), appendix B7/B8'),
+    'C19': dict(
+        technique=TECH + 'sibling cross-check of the two partial branches (argument flow into _mask), partial column of the mask table, effect ordering',
+        text='Decides the structural clauses C19.R1-R4 (both partial branches call _mask with the same shape, partial rows of the '
+             'mask table, depth copy before depth-0 placement, discovery passes bound positionals and no keywords).',
+        note='agreement with really calling the partial object.',
+        design='DESIGN.md section 3 (C19)'),
 }
 
 NOT_YET = 'no static check registered yet in this round (work in progress; see DESIGN.md section 3 for the planned clauses)'
